@@ -1,7 +1,7 @@
 #!/bin/sh
 # run every check of the given tier (default quick); summary line per check
 tier=${1:-quick}
-cd /verif
+cd "$(dirname "$0")"
 rc_all=0
 for i in 01 02 03 04 05 06 07 08 09 10 11 12 13 14 15 16 17 18 19 20; do
   out=$(./check C$i --tier $tier 2>&1)
